@@ -459,7 +459,7 @@ func positionInside(errText, src string) (bool, string) {
 var c24seq int
 
 func runC24(c c24Case) *vstat.Failure {
-	return vstat.Catch(func() *vstat.Failure { return runC24x(c) })
+	return vstat.CatchBounded(60*time.Second, func() *vstat.Failure { return runC24x(c) })
 }
 
 func runC24x(c c24Case) *vstat.Failure {
